@@ -676,7 +676,7 @@ def gen_program(rng, meta, length=None):
             rng.shuffle(order)
             if rng.random() < 0.2:
                 order = order[:-1]
-            ops.append(["O", order])
+            ops.append(["O", list(order)])
             cells = order
         elif r < 0.62 and cells:                       # importance
             n = rng.choice(cells)
